@@ -476,6 +476,65 @@ func (fs *fontSpec) provenance(f *sfnt.Font, res, eff []string) string {
 			}
 		}
 	}
+	// "... before falling back to numbered placeholders", the converse for
+	// substitution rules: a glyph that a type 1 / type 3 rule produces from a
+	// glyph which had its name from the start (an existing name that was kept,
+	// so it was there when the rule was looked at) does not end with a
+	// placeholder - a variant name can always be made.
+	named := func(g int) bool {
+		if g < 0 || g >= n {
+			return false
+		}
+		if g == 0 {
+			return res[0] == ".notdef"
+		}
+		if eff[g] != "" && res[g] == eff[g] {
+			return true
+		}
+		// named from the cmap (that phase comes before the rules): no rule
+		// produces the glyph, so its name cannot be a variant name
+		if len(bases[g]) == 0 {
+			for _, c := range cmapNames[g] {
+				if c != "" && c == res[g] {
+					return true
+				}
+			}
+		}
+		return false
+	}
+	needs := func(orig, g int) string {
+		if g > 0 && g < n && named(orig) && res[g] != eff[g] && ornRe.MatchString(res[g]) {
+			return fmt.Sprintf("glyph %d got the placeholder %q although a substitution rule produces it from glyph %d, which kept its name %q: a variant name was due", g, res[g], orig, res[orig])
+		}
+		return ""
+	}
+	for _, s := range fs.gsub {
+		for _, e := range s.cov {
+			if e.gid < 0 || e.gid >= n {
+				continue
+			}
+			switch s.kind {
+			case "g11":
+				if d := needs(e.gid, (e.gid+s.delta)&0xFFFF); d != "" {
+					return d
+				}
+			case "g12":
+				if e.idx >= 0 && e.idx < len(s.subst) {
+					if d := needs(e.gid, s.subst[e.idx]); d != "" {
+						return d
+					}
+				}
+			case "g31":
+				if e.idx >= 0 && e.idx < len(s.alts) {
+					for _, g := range s.alts[e.idx] {
+						if d := needs(e.gid, g); d != "" {
+							return d
+						}
+					}
+				}
+			}
+		}
+	}
 glyphs:
 	for g := 1; g < n; g++ {
 		if res[g] == eff[g] || ornRe.MatchString(res[g]) {
